@@ -167,6 +167,29 @@ def run_one(rec, G, tag, alphabet, maxlen, bytes_mode=False, shiftable=True, nam
     b.cleanup()
 
 
+def run_chain(rec, grammars, tag, alphabet, maxlen):
+    """The three outcomes for grammars that extend another: module-level parse and every rule / class
+    the leaf defines as entry point, every offset, both fullparse values."""
+    b = diff.build(rec, grammars)
+    if b is None:
+        return
+    rec.count('chain_descriptions')
+    # (an inherited rule is the parent's own rule object, bound to the parent: entry points are the
+    # module-level parse and what the leaf grammar itself defines, as in C13)
+    names = [st[1] for st in grammars[-1]['stmts'] if st[0] in ('rule', 'class') and st[2] is None]
+    entries = [None] + names[:6]
+    for text in work.inputs_for(alphabet, maxlen):
+        for entry in entries:
+            for pos in range(0, len(text) + 1):
+                for fp in (True, False):
+                    r = diff.compare(rec, b, text, entry, pos, fp, monitors=('value', 'outcome'), extra_case=dict(tag=str(tag), chain=True))
+                    if r is None:
+                        continue
+                    rec.count('outcome:' + r[1].outcome[0])
+                    rec.nontrivial((b.descs[-1], entry, text, pos, fp))
+    b.cleanup()
+
+
 def run_shard(rec):
     quick = rec.tier == 'quick'
     rec.deadline = time.time() + (300 if quick else 900)
@@ -179,6 +202,11 @@ def run_shard(rec):
                 alpha = 'a<>!'
             run_one(rec, G, ('curated', tag), alpha, 5 if quick else 6,
                     shiftable=('backtrack' not in tag))
+    from . import c13
+    for ctag, mode, levels in c13.curated_chains():
+        idx += 1
+        if rec.mine(idx):
+            run_chain(rec, c13.build_curated(levels, dotted=False), ('chain', ctag), 'abc(#' if quick else 'abcd(#!', 3 if quick else 4)
     n = 80 if quick else 1500
     for i in range(n):
         if rec.out_of_time():
